@@ -1,5 +1,6 @@
 """C09 — external product multiplies messages; blind rotation rotates by the secret exponent."""
-from vlib import table, ringreplay as rr
+from vlib import table, tlc, tgsw, ringreplay as rr
+from vlib.common import CheckBroken
 
 LEVEL = "model_checking"
 
@@ -69,5 +70,28 @@ def run(ctx):
             except Exception:
                 brief = (bad["row"] or "")[:200]
             ctx.violation("full-size external product (%s/%s) is not +-X^j * phase(sample) within the truncation bound: %s (f: 0 FFT, 1 coefficient domain in place, 2 coefficient domain)" % (be, kind, brief), detail={"row_index": bad["row_index"], "brief": brief}, files=[f])
+    # "for every TGSW encryption of m": what a TGSW sample of m is, and that the library's own operations on TGSW samples (clear, + H, + mu*H, trivial,
+    # (X^a - 1) *, decryption, the Lagrange-domain image and back) are the message maps of the specification: TGswAlg is checked exhaustively for short
+    # operation sequences, TLC then samples long ones and h_tgsw executes them on the library (N = 1024, embedded values); Trace_TGswAlg validates every step
+    for c in ("MC_TGswAlg.cfg", "MC_TGswAlg_k2.cfg"):
+        r = tlc.run_tlc("MC_TGswAlg", cfg=c, workdir=ctx.dir, workers=4, timeout=1200)
+        if not tlc.expect_ok(ctx, r, c):
+            raise CheckBroken("specification TGswAlg (%s) violates %s" % (c, r.violated))
+    ctx.sample({"model": "MC_TGswAlg", "distinct_states": r.distinct, "invariants": "WellFormed, DecryptReadsMessage"})
+    rm = tlc.run_tlc("MC_TGswAlg", cfg="MC_TGswAlg_mut_bodyonly.cfg", workdir=ctx.dir, workers=2)
+    if rm.violated != "WellFormed":
+        raise CheckBroken("design mutant 'gadget added to the body block only' not rejected: %r" % rm)
+    ctx.add("spec_mutants_rejected", 1)
+    tplans = [("spqlios-fma", "optim", 0, 6), ("fftw", "debug", 1, 4), ("nayuki-portable", "optim", 2, 4)]
+    if thorough:
+        tplans = [(be, "optim", i, 24) for be in ("spqlios-fma", "spqlios-avx", "nayuki-portable", "nayuki-avx", "fftw") for i in (0, 1, 2)] + [("spqlios-fma", "debug", 1, 12), ("fftw", "debug", 2, 12)]
+    for q, (be, kind, i, num) in enumerate(tplans):
+        bad = tgsw.replay(ctx, be, kind, tgsw.INSTANCES[i], num, ctx.seed * 13 + q)
+        if bad and bad.get("crash"):
+            ctx.violation("h_tgsw died on %s/%s rc=%s %s" % (be, kind, bad["rc"], bad["err"]), key="h_tgsw crash %s %s" % (be, kind), files=bad["files"])
+        elif bad:
+            ctx.violation("TGSW operation sequence on %s/%s (instance %s) is not a behaviour of TGswAlg (%s): accepted %d of %d events, rejected event %s" %
+                          (be, kind, tgsw.INSTANCES[i], bad["violated"] or "register contents / decrypted message / grid deviation differ from the specification",
+                           bad["accepted_prefix"], bad["of"], bad["event"][:300]), detail={k: bad[k] for k in ("accepted_prefix", "of", "event")}, files=bad["files"])
     ctx.assume("noiseless TGSW rows with model-chosen masks give exact-up-to-FFT-rounding equalities (256 units of 2^-32); the statistical clause for noisy rows is covered by the gate-output statistics of C02")
     ctx.assume("coefficient-domain and FFT-domain variants, and blind rotation whole vs one key element at a time, are validated against the same model, hence agree")
